@@ -111,7 +111,13 @@ func (d *SimDB) BeginTx() (mwdb.DBTransaction, error) {
 //go:norace
 func (d *SimDB) BeginReadTx() (mwdb.ReadTransaction, error) {
 	g := d.S.Current()
+	// reads of the store synchronise inside goleveldb (mutexes, sequence
+	// atomics). The wallet must not be credited with that: between two store
+	// calls another goroutine could run where none of it has happened yet.
+	// Only the writer lock (BeginTx) and the commit keep their ordering.
+	raceOff()
 	rtx, err := d.inner.BeginReadTx()
+	raceOn()
 	if err != nil {
 		return nil, err
 	}
@@ -151,19 +157,31 @@ func (t *simTx) wrap(b mwdb.Bucket) mwdb.Bucket {
 }
 
 //go:norace
-func (t *simTx) TopLevelBucket(name string) mwdb.Bucket { return t.wrap(t.r.TopLevelBucket(name)) }
+func (t *simTx) TopLevelBucket(name string) mwdb.Bucket {
+	raceOff()
+	defer raceOn()
+	return t.wrap(t.r.TopLevelBucket(name))
+}
 
 //go:norace
 func (t *simTx) FetchBucket(meta mwdb.BucketMeta) mwdb.Bucket {
+	raceOff()
+	defer raceOn()
 	return t.wrap(t.r.FetchBucket(meta))
 }
 
 //go:norace
-func (t *simTx) BucketNames() ([]string, error) { return t.r.BucketNames() }
+func (t *simTx) BucketNames() ([]string, error) {
+	raceOff()
+	defer raceOn()
+	return t.r.BucketNames()
+}
 
 //go:norace
 func (t *simTx) CreateTopLevelBucket(name string) (mwdb.Bucket, error) {
+	raceOff()
 	b, err := t.w.CreateTopLevelBucket(name)
+	raceOn()
 	if err != nil {
 		return nil, err
 	}
@@ -171,11 +189,18 @@ func (t *simTx) CreateTopLevelBucket(name string) (mwdb.Bucket, error) {
 }
 
 //go:norace
-func (t *simTx) DeleteTopLevelBucket(name string) error { return t.w.DeleteTopLevelBucket(name) }
+func (t *simTx) DeleteTopLevelBucket(name string) error {
+	raceOff()
+	defer raceOn()
+	return t.w.DeleteTopLevelBucket(name)
+}
 
 //go:norace
 func (t *simTx) Rollback() error {
 	if t.readOnly {
+		// releasing the snapshot: store-internal synchronisation, see BeginReadTx
+		raceOff()
+		defer raceOn()
 		return t.r.Rollback()
 	}
 	if t.finished {
@@ -251,7 +276,9 @@ func (b *simBucket) readGate(what string) {
 
 //go:norace
 func (b *simBucket) NewBucket(name string) (mwdb.Bucket, error) {
+	raceOff()
 	nb, err := b.b.NewBucket(name)
+	raceOn()
 	if err != nil {
 		return nil, err
 	}
@@ -260,7 +287,9 @@ func (b *simBucket) NewBucket(name string) (mwdb.Bucket, error) {
 
 //go:norace
 func (b *simBucket) Bucket(name string) mwdb.Bucket {
+	raceOff()
 	nb := b.b.Bucket(name)
+	raceOn()
 	if nb == nil {
 		return nil
 	}
@@ -268,16 +297,26 @@ func (b *simBucket) Bucket(name string) mwdb.Bucket {
 }
 
 //go:norace
-func (b *simBucket) BucketNames() ([]string, error) { return b.b.BucketNames() }
+func (b *simBucket) BucketNames() ([]string, error) {
+	raceOff()
+	defer raceOn()
+	return b.b.BucketNames()
+}
 
 //go:norace
-func (b *simBucket) DeleteBucket(name string) error { return b.b.DeleteBucket(name) }
+func (b *simBucket) DeleteBucket(name string) error {
+	raceOff()
+	defer raceOn()
+	return b.b.DeleteBucket(name)
+}
 
 //go:norace
 func (b *simBucket) Put(key, value []byte) error {
 	if b.t.d.fault("put") {
 		return ErrInjectedDB
 	}
+	raceOff()
+	defer raceOn()
 	return b.b.Put(key, value)
 }
 
@@ -286,6 +325,8 @@ func (b *simBucket) Delete(key []byte) error {
 	if b.t.d.fault("delete") {
 		return ErrInjectedDB
 	}
+	raceOff()
+	defer raceOn()
 	return b.b.Delete(key)
 }
 
@@ -295,11 +336,17 @@ func (b *simBucket) Get(key []byte) ([]byte, error) {
 	if b.t.d.fault("get") {
 		return nil, ErrInjectedDB
 	}
+	raceOff()
+	defer raceOn()
 	return b.b.Get(key)
 }
 
 //go:norace
-func (b *simBucket) Clear() error { return b.b.Clear() }
+func (b *simBucket) Clear() error {
+	raceOff()
+	defer raceOn()
+	return b.b.Clear()
+}
 
 //go:norace
 func (b *simBucket) GetByPrefix(p []byte) ([]*mwdb.Entry, error) {
@@ -307,16 +354,24 @@ func (b *simBucket) GetByPrefix(p []byte) ([]*mwdb.Entry, error) {
 	if b.t.d.fault("get") {
 		return nil, ErrInjectedDB
 	}
+	raceOff()
+	defer raceOn()
 	return b.b.GetByPrefix(p)
 }
 
 //go:norace
-func (b *simBucket) GetBucketMeta() mwdb.BucketMeta { return b.b.GetBucketMeta() }
+func (b *simBucket) GetBucketMeta() mwdb.BucketMeta {
+	raceOff()
+	defer raceOn()
+	return b.b.GetBucketMeta()
+}
 
 //go:norace
 func (b *simBucket) NewIterator(slice *mwdb.Range) mwdb.Iterator {
 	b.readGate("iter")
+	raceOff()
 	it := b.b.NewIterator(slice)
+	raceOn()
 	return &simIter{b: b, it: it}
 }
 
@@ -327,7 +382,7 @@ type simIter struct {
 }
 
 //go:norace
-func (i *simIter) Release() { i.it.Release() }
+func (i *simIter) Release() { raceOff(); i.it.Release(); raceOn() }
 
 //go:norace
 func (i *simIter) Error() error {
@@ -343,6 +398,8 @@ func (i *simIter) Seek(key []byte) bool {
 	if i.failed {
 		return false
 	}
+	raceOff()
+	defer raceOn()
 	return i.it.Seek(key)
 }
 
@@ -356,14 +413,24 @@ func (i *simIter) Next() bool {
 		i.failed = true
 		return false
 	}
+	raceOff()
+	defer raceOn()
 	return i.it.Next()
 }
 
 //go:norace
-func (i *simIter) Key() []byte { return i.it.Key() }
+func (i *simIter) Key() []byte {
+	raceOff()
+	defer raceOn()
+	return i.it.Key()
+}
 
 //go:norace
-func (i *simIter) Value() []byte { return i.it.Value() }
+func (i *simIter) Value() []byte {
+	raceOff()
+	defer raceOn()
+	return i.it.Value()
+}
 
 // callSite returns the innermost wallet-code frames of the caller (function
 // names only), used to tell injected-fault findings apart by call site.
